@@ -41,6 +41,9 @@ def _marg(kind):
         return lambda k: 2.0 ** (-k)
     if kind == "const":
         return lambda k: 0.25
+    if kind == "geo":
+        # over k = 0..20 this sums to 1 - 2^-21: almost, but not, normalised already
+        return lambda k: 2.0 ** (-(k + 1))
     if kind == "np":
         import numpy as np
         return lambda k: np.float64(1.0) / np.float64(k + 2)
@@ -107,6 +110,9 @@ def instances(tier, seed):
     for bounds in ([(3, 3)], [(0, 0), (0, 1)], [(2, 2), (1, 1)]):
         yield {"loader": "function", "t": len(bounds), "bounds": [list(b) for b in bounds], "jk": "sum+1"}
     yield {"loader": "marginal", "t": 1, "bounds": [[299, 301]], "fk": ["const"], "mode": "sampling", "n": 2}
+    # marginals whose raw product table sums to 1 - 5e-7 / 1 - 1e-6 (normalisation must still happen)
+    yield {"loader": "marginal", "t": 1, "bounds": [[0, 21]], "fk": ["geo"], "mode": "direct"}
+    yield {"loader": "marginal", "t": 2, "bounds": [[0, 21], [0, 21]], "fk": ["geo", "geo"], "mode": "direct"}
     yield {"loader": "marginal", "t": 2, "bounds": [[255, 257], [0, 1]], "fk": ["const", "k+1"], "mode": "sampling",
            "n": 1}
 
@@ -242,13 +248,18 @@ def run_instance(inst, tier):
     elif ld == "marginal" and inst["mode"] == "direct":
         bounds = [tuple(b) for b in inst["bounds"]]
         laws = marginal_laws(bounds, inst["fk"])
-        for how in ("direct", "dispatch"):
+        # the direct (analytical) mode is the default: it must be used when use_sampling is absent or False, whether
+        # or not a sample size is also given
+        extras = [{}, {JN.N_SAMPLES: 3}, {JN.USE_SAMPLING: False, JN.N_SAMPLES: 2}]
+        for how, extra in [(h, x) for h in ("direct", "dispatch") for x in extras]:
             res.executions += 1
             res.states += 1
             res.transitions += 1
             try:
-                obj = build("marginal", {JN.ARR_FP: [marg(k) for k in inst["fk"]], JN.MOTIF_SIZES: sizes,
-                                         JN.LOW_HIGH_DEGREE_BOUND: bounds}, how)
+                params = {JN.ARR_FP: [marg(k) for k in inst["fk"]], JN.MOTIF_SIZES: sizes,
+                          JN.LOW_HIGH_DEGREE_BOUND: bounds}
+                params.update(extra)
+                obj = build("marginal", params, how)
                 bads = [compare(obj.jdd, law, "marginal-direct") for law in laws]
                 bad = None if any(b is None for b in bads) else bads[0]
                 if bad is None and abs(sum(float(v) for v in obj.jdd.values()) - 1) > 1e-9:
@@ -256,7 +267,7 @@ def run_instance(inst, tier):
             except Exception as e:
                 bad = ("C06:marginal-direct:raises", repr(e))
             if bad:
-                viol(bad, how)
+                viol(bad, how, extra_params=sorted(str(k) for k in extra))
         res.nontrivial.add(("marginal", tuple(bounds), tuple(inst["fk"])))
         res.flags.add("marginal-direct")
         if not res.samples and t == 2:
